@@ -8,6 +8,7 @@ import (
 	"go/constant"
 	"go/token"
 	"go/types"
+	"reflect"
 	"sort"
 	"strings"
 
@@ -416,6 +417,9 @@ func boolEdges(cond ssa.Value) (tru, fls []Edge) {
 // nilTestEdges: edges on which v is known nil / known non-nil, from
 // comparisons with nil and from errors.Is(v, _) (true ⇒ non-nil).
 func nilTestEdges(v ssa.Value) (isNil, nonNil []Edge) {
+	if v == nil || reflect.ValueOf(v).IsNil() {
+		return nil, nil
+	}
 	vals := []ssa.Value{v}
 	// the same value converted to another interface type is the same value
 	if refs := v.Referrers(); refs != nil {
